@@ -713,10 +713,14 @@ fn remove_from_set(kind: u8, old: &mut SetVal, del: &SetVal) {
                     })
                 });
             } else if kind == K_ASPATH {
-                // single-AS forms are compared by what they mean, general patterns by their text
+                // single-AS forms are compared by the numbers they name (`^065003$` is `^65003$`), but a
+                // range is an entry of its own even when both ends are equal: the property does not
+                // say that deleting `^65003$` takes `^65003-65003$` away too, and the table lists them
+                // as two entries; general patterns are compared by their text
+                let is_range = |p: &str| p.contains('-');
                 a.retain(|e| {
                     !b.iter().any(|d| match (parse_single(e), parse_single(d)) {
-                        (Some(x), Some(y)) => x == y,
+                        (Some(x), Some(y)) => x == y && is_range(e) == is_range(d),
                         (None, None) => e == d,
                         _ => false,
                     })
